@@ -191,8 +191,41 @@ def t_oracles_flag_a_wrong_implementation():
     assert st.violations and st.violations[0]["oracle"] == "C05.U", st.violations[:1]
 
 
+def t_more_hand_computed_references():
+    """T-HOO index, Zooming phase/index, SequOOL opening counts, GPO parameters - computed by hand."""
+    from xmc import configs
+    from xmc.core import ChoiceSource
+    from xmc.world import seam
+
+    seam().set_source(ChoiceSource([]))
+    # T-HOO(nu=1, rho=0.5, n=100) on [0,1]: after reward 0.25 at the first pull the pulled child has
+    # U = 0.25 + sqrt(2 ln 100 / 1) + 0.5, the root path is credited, the sibling stays at +inf
+    a, _ = configs.build(configs.cfg("T_HOO", nu=1, rho=0.5, rounds=100))
+    x = a.pull(1)
+    a.receive_reward(1, 0.25)
+    kids = a.partition.get_root().get_children()
+    pulled = [k for k in kids if k.get_cpoint() == x][0]
+    other = [k for k in kids if k is not pulled][0]
+    assert abs(pulled.get_u_value() - (0.25 + math.sqrt(2 * math.log(100)) + 0.5)) < 1e-12
+    assert other.get_u_value() == float("inf") and a.partition.get_root().get_visited_times() == 1
+    # truncation depth ceil((ln(100)/2 - 0) / ln 2) = ceil(3.32) = 4
+    from xmc.refs.tree_bandits import ceil_set
+
+    assert ceil_set((math.log(100) / 2 - math.log(1 / 1)) / math.log(2)) == {4}
+    # Zooming: two arms at 0.25 / 0.75, index 0 + 2 sqrt(8*1/2) = 4 for both at the first pull
+    z, _ = configs.build(configs.cfg("Zooming", nu=1, rho=0.9))
+    assert sorted(tuple(p.get_point()) for p in z.active_points) == [(0.25,), (0.75,)]
+    assert abs(2 * math.sqrt(8 * 1 / (2 + 0)) - 4.0) < 1e-15
+    # SequOOL n=10: H_10 = 2.928..., h_max = 3, openings 1 + 3 + 1 + 1 = 6 -> 12 evaluations on a binary partition
+    from xmc.props.c12 import schedule_len
+
+    assert schedule_len(10, 2) == 12 and schedule_len(10, 3) == 18
+    # GPO n=100, rho_max=0.9: N=9, floor(n/2N)=5, rho of phase 1 = 0.9^(18/3) = 0.531441
+    assert abs(0.9 ** (2 * 9 / 3) - 0.531441) < 1e-12
+
+
 TESTS = [t_enumeration_counts, t_divergence_is_harness_error, t_changed_position_semantics, t_rng_seam, t_structural_oracles,
-         t_reference_constants, t_hct_reference_hand_computed, t_oracles_flag_a_wrong_implementation]
+         t_reference_constants, t_hct_reference_hand_computed, t_more_hand_computed_references, t_oracles_flag_a_wrong_implementation]
 
 
 def main():
